@@ -12,12 +12,12 @@ TOK = {"int": 1, "none": None}
 
 
 # ------------------------------------------------------------------------------ behaviours from TLC
-def mc_cfg(rate=0, depth=8, frames=3, throw=True, devs=None, invariants=True, emit=False, view=True):
+def mc_cfg(rate=0, depth=8, frames=3, throw=True, devs=None, invariants=True, emit=False, view=True, alphabet="MC"):
     devs = devs or {}
     names = ["Dev_ReturnConst", "Dev_AwaitIsYield", "Dev_ThrowIsYield", "Dev_Resample"]
-    lines = ["SPECIFICATION Spec", "CONSTANTS", "  Funcs <- FuncsMC", "  Kind <- KindMC", "  Wanted <- WantedMC",
-             "  Vals <- ValsMC", "  MaxFrames = %d" % frames, "  MaxDepth = %d" % depth, "  Rate = %d" % rate,
-             "  AllowThrow = %s" % ("TRUE" if throw else "FALSE")]
+    lines = ["SPECIFICATION Spec", "CONSTANTS", "  Funcs <- Funcs" + alphabet, "  Kind <- Kind" + alphabet,
+             "  Wanted <- Wanted" + alphabet, "  Vals <- Vals" + alphabet, "  MaxFrames = %d" % frames, "  MaxDepth = %d" % depth, "  Rate = %d" % rate,
+             "  AllowThrow = %s" % ("TRUE" if throw else "FALSE"), "  AllowDrop = %s" % ("TRUE" if throw else "FALSE")]
     lines += ["  %s = %s" % (n, "TRUE" if devs.get(n) else "FALSE") for n in names]
     lines.append("CONSTRAINT DepthOK")
     if view:
@@ -30,8 +30,8 @@ def mc_cfg(rate=0, depth=8, frames=3, throw=True, devs=None, invariants=True, em
     return "\n".join(lines) + "\n"
 
 
-def tlc_behaviours(rate, depth, frames, devs, simulate=None, seed=0, throw=True, timeout=1800):
-    cfg = mc_cfg(rate, depth, frames, throw, devs, invariants=False, emit=True, view=False)
+def tlc_behaviours(rate, depth, frames, devs, simulate=None, seed=0, throw=True, timeout=1800, alphabet="MC"):
+    cfg = mc_cfg(rate, depth, frames, throw, devs, invariants=False, emit=True, view=False, alphabet=alphabet)
     res = tlc.run_tlc("MTTracerMC", cfg_text=cfg, workers=(1 if simulate else 16), simulate=simulate,
                       depth=(depth + 1 if simulate else None), seed=seed, timeout=timeout, xmx="16g")
     tlc.check_ok(res, "MTTracerMC export")
@@ -117,7 +117,7 @@ def build_actions(hist, rng, env, rich=None, admit=None):
             acts.append({"op": op, "f": t["canon"], "kind": kind, "wanted": wanted, "target": t["name"],
                          "args": args, "kwargs": kwargs, "sigfunc": t["sigfunc"], "selfargs": t["selfargs_f"],
                          "catch": h["catch"], "draw": h["draw"], "id": h["id"]})
-        elif op in ("Resume", "Throw"):
+        elif op in ("Resume", "Throw", "Drop"):
             acts.append({"op": op, "id": h["id"], "catch": h["catch"], "draw": h["draw"]})
         elif op == "Return":
             acts.append({"op": op, "id": h["id"], "how": h["f"], "val": val(h["v"])})
@@ -161,7 +161,7 @@ def run_scenario(sc):
         err = type(e).__name__
     finally:
         mtt.random = old_random
-    resid = sum(1 for fr in list(tracer.traces) if S.fid_of(fr) in S.done)
+    resid = sum(1 for fr in list(tracer.traces) if id(fr) in S.done_ids and id(fr) not in S.frames)
     S.emit(ev="End", resid=resid, flushes=logger.flushes, err=err)
     events = S.events
     for e in events:   # homogeneous optional fields
@@ -242,11 +242,11 @@ C02_CLAUSES = {"ArgNames", "ArgTypes", "ReturnAbsentOnException", "ReturnPresent
 
 def scenario_signature(rec, sc, clause):
     ops = {h["op"] for h in sc["hist"]}
-    sig = {"clause": clause, "has_throw": "Throw" in ops}
+    sig = {"clause": clause, "has_throw": "Throw" in ops, "has_drop": "Drop" in ops}
     if sc["rate"] > 1:
         first, late = {}, False
         for h in sc["hist"]:
-            if h["op"] in ("Resume", "Throw") and h["f"] == "G":
+            if h["op"] in ("Resume", "Throw", "Drop") and h["f"] == "G":
                 if h["id"] not in first:
                     first[h["id"]] = h["draw"]
                 elif first[h["id"]] != 0 and h["draw"] == 0:
@@ -339,6 +339,12 @@ def main(pid, tier, seed, replay=None):
         d_bfs = (3 if sampled else 4) if q else (5 if sampled else 6)
         beh1, r1 = tlc_behaviours(rate_model, d_bfs, 3, devs, throw=not sampled)
         plan.append({"family": "all maximal paths of MTTracer to depth %d (exhaustive)" % d_bfs, "behaviours": len(beh1)})
+        if not sampled:
+            d_gf = 6 if q else 8
+            beh3, _ = tlc_behaviours(rate_model, d_gf, 3, devs, alphabet="GF")
+            plan.append({"family": "all maximal paths over {plain function, generator} to depth %d: resume / throw / drop / "
+                                   "call-right-after-drop (exhaustive)" % d_gf, "behaviours": len(beh3)})
+            beh1 = beh1 + beh3
         nsim = (12000 if sampled else 4000) if q else 60000
         beh2, r2 = tlc_behaviours(rate_model, 12 if q else 16, 4, devs, simulate="num=%d" % nsim, seed=seed + 1,
                                   throw=not sampled)
